@@ -370,9 +370,9 @@ def check_derive(F, case, B, model_nodes_labels, counters, log):
         ri = sub[0]
         r = spec['rules'][ri]
         asst = {B.nodes[(ri, idx)]: value[find((pos, idx))] for idx in range(len(r['nodes']))}
-        kids = {}
-        for j, ei in enumerate(GR.nt_edges(spec, r)):
-            kids[B.edges[(ri, ei)]] = mk(pos + (j,), sub[1][j])
+        pairs = [(B.edges[(ri, ei)], mk(pos + (j,), sub[1][j])) for j, ei in enumerate(GR.nt_edges(spec, r))]
+        g.shuffle(pairs)        # the children mapping is keyed by edge; its insertion order is the caller's business
+        kids = dict(pairs)
         return F.FGGDerivation(B.fgg, B.rules[ri], asst, kids)
     d = mk((), tree)
     graph, asst = d.derive()
